@@ -41,7 +41,7 @@ FAMS = {
     "Vgate": ("KGate", 0), "Kgate": ("KGate", 0), "Fouriergate": ("KFourier", 0),
     "LossChannel": ("KChannel", 0), "ThermalLossChannel": ("KChannel", 1), "MSgate": ("KOther", 1),
     "Vacuum": ("KPrep", 0), "Coherent": ("KPrep", 1), "Squeezed": ("KPrep", 1), "Thermal": ("KPrep", 0), "Fock": ("KPrep", 0),
-    "BSgate": ("KGate", 1), "CXgate": ("KGate", 0), "MeasureX": ("KOther", 0), "RgateM": ("KOther", 0),
+    "BSgate": ("KGate", 1), "CXgate": ("KGate", 0), "MeasureX": ("KOther", 0), "RgateM": ("KOther", 0), "Del": ("KOther", 0),
 }
 FAM_ID = {n: i for i, n in enumerate(sorted(FAMS))}
 
@@ -59,6 +59,7 @@ def gen_circuit(rng, profile):
         names += ["MSgate"]
     cmds = []
     measured = set()
+    deleted = set()
     for _ in range(rng.randint(0, 12)):
         if cmds and rng.random() < 0.45:
             # same family on the same mode as some earlier single-mode command: provoke merges
@@ -76,6 +77,8 @@ def gen_circuit(rng, profile):
             continue
         if modes is None or len(modes) != (2 if two else 1):
             modes = rng.sample(range(n), 2 if two else 1)
+        if set(modes) & deleted:
+            continue
         kind, nextra = FAMS[name]
         if name in ("LossChannel", "ThermalLossChannel"):
             p0 = Fraction(rng.choice([8, 8, 4, 2, 6]), 8)
@@ -89,7 +92,7 @@ def gen_circuit(rng, profile):
             if not measured:
                 continue
             src = rng.choice(sorted(measured))
-            if src == modes[0]:
+            if src == modes[0] or src in deleted:
                 continue
             p0 = ("meas", src)
         elif name in ("Vgate", "Kgate"):
@@ -104,6 +107,11 @@ def gen_circuit(rng, profile):
         if name == "MeasureX":
             measured.add(modes[0])
         cmds.append({"name": name, "p0": p0, "extra": extra, "modes": modes, "dagger": dagger})
+        if n >= 2 and len(deleted) < n - 1 and rng.random() < 0.06:
+            # delete a mode that was used before: nothing may touch it afterwards
+            dm = rng.choice([m for m in range(n) if m not in deleted])
+            deleted.add(dm)
+            cmds.append({"name": "Del", "p0": None, "extra": [], "modes": [dm], "dagger": False})
         if name == "RgateM" and rng.random() < 0.6:
             cmds.append({"name": name, "p0": p0, "extra": [], "modes": list(modes), "dagger": False})
         if name == "RgateM" and rng.random() < 0.6:
@@ -144,6 +152,9 @@ def build(circ):
             elif name == "MeasureX":
                 # post-selected so that both runs are deterministic
                 op = ops.MeasureHomodyne(0.0, select=0.25)
+            elif name == "Del":
+                ops.Del | q[c["modes"][0]]
+                continue
             elif name in ("Fouriergate", "Vacuum"):
                 op = getattr(ops, name)()
             elif name == "Fock":
@@ -185,6 +196,8 @@ def view_impl(prog_opt):
             name = "RgateM"
         if name == "MeasureHomodyne":
             name = "MeasureX"
+        if name == "_Delete":
+            name = "Del"
         p0 = None
         if p and not meas and name not in ("Fouriergate", "MeasureX"):
             try:
@@ -238,11 +251,15 @@ def states_differ(circ, prog, opt, profile):
         s2 = run(opt)
     finally:
         np.random.normal = orig_normal
+    if backend == "fock" and s1.dm().shape != s2.dm().shape:
+        return True
     if backend == "fock":
         # truncated matrices are not exactly a group: allow the error attributable to truncation
         tol = max(bc.fock_tol(s1)[0], bc.fock_tol(s2)[0], 1e-4)
         return float(np.abs(s1.dm() - s2.dm()).max()) > tol
     o1, o2 = bc.gauss_obs(s1), bc.gauss_obs(s2)
+    if o1[0].shape != o2[0].shape:
+        return True
     return max(np.abs(o1[0] - o2[0]).max(), np.abs(o1[1] - o2[1]).max()) > 1e-8
 
 
